@@ -479,6 +479,7 @@ def run(ctx):
     r9_attribute_iteration(ctx, pdb)
     r10_round_up(ctx, [('ossl-file', po), ('botan-file', pb)])
     r11_component_order(ctx, po, pb)
+    c10.r10_secret_measure(ctx, [('ossl-file', po), ('botan-file', pb)], rule_id='C20.R12')
 
 
 MUTANTS = [
